@@ -6,10 +6,21 @@ Import ListNotations.
 From Goat Require Import Base.Explore Model.Client Check.ClientC Check.ClientSpec.
 Open Scope Z_scope.
 
-Inductive c13case := C13Step (c : ccase).
+Inductive c13case :=
+| C13Step (c : ccase)
+(* surplus replies to one unary call, then later calls: per call (the token it must report if it reports success,
+   what it got: a token, -3 = an error, -2 = still pending after the read failure, answered by the peer: 1 / 0) *)
+| C13Surplus (results : list (Z * Z * Z)).
 
 Definition check_c13 (c : c13case) : list nat :=
-  match c with C13Step cc => (if agrees cc then [] else [1%nat]) ++ reasons_in [3; 4; 5; 6; 7; 8]%nat cc end.
+  match c with
+  | C13Step cc => (if agrees cc then [] else [1%nat]) ++ reasons_in [3; 4; 5; 6; 7; 8]%nat cc
+  | C13Surplus results =>
+      (* an answered call reports exactly the data addressed to it; an unanswered one never reports success *)
+      (if forallb (fun r => match r with (own, got, ans) => if 0 <=? got then (ans =? 1) && (got =? own) else true end) results then [] else [5%nat]) ++
+      (if forallb (fun r => match r with (_, got, ans) => negb (got =? -2) && (if ans =? 1 then true else got =? -3) end) results then [] else [6%nat]) ++
+      (if forallb (fun r => match r with (own, got, ans) => if ans =? 1 then got =? own else true end) results then [] else [3%nat])
+  end.
 
 Fixpoint find_bad_from (i : nat) (cs : list c13case) : list (nat * list nat) :=
   match cs with
